@@ -43,12 +43,15 @@ MidSplit(f) == [i \in 1..f |-> IF i <= Ceil2(f) THEN 1 ELSE 0]
 SumSeq(m) == Cardinality({i \in DOMAIN m : m[i] = 1})
 
 \* ---- type-check predicates on argument tokens <<kind, value>>
+\* <<"big", k, off>> stands for the Python integer 2^k + off (Python's integers are unbounded; TLC's are not):
+\* for k >= 2 it is a power of two iff off = 0
 Tokens == {<<"int", v>> : v \in -2..4} \cup {<<"bool", 0>>, <<"bool", 1>>, <<"float", 2>>, <<"str", 3>>, <<"none", 0>>}
+          \cup {<<"big", k, off>> : k \in {5, 10, 24, 31, 32, 49, 53, 63, 64, 100, 1000}, off \in {-1, 0, 1, 3}}
 IsBool(t) == t[1] = "bool"
-IsInt(t) == t[1] \in {"int", "bool"}             \* Python: bool is a subclass of int
-IsPositiveInt(t) == IsInt(t) /\ t[2] > 0
-IsNonnegativeInt(t) == IsInt(t) /\ t[2] >= 0
-IsPowerOfTwo(t) == IsPositiveInt(t) /\ t[2] \in {1, 2, 4, 8, 16}
+IsInt(t) == t[1] \in {"int", "bool", "big"}      \* Python: bool is a subclass of int
+IsPositiveInt(t) == IsInt(t) /\ (t[1] = "big" \/ t[2] > 0)
+IsNonnegativeInt(t) == IsInt(t) /\ (t[1] = "big" \/ t[2] >= 0)
+IsPowerOfTwo(t) == IF t[1] = "big" THEN t[3] = 0 ELSE IsPositiveInt(t) /\ t[2] \in {1, 2, 4, 8, 16}
 
 \* ---- integer determinant (exact) for logabsdet on small integer matrices
 Det2(m) == m[1][1] * m[2][2] - m[1][2] * m[2][1]
